@@ -19,8 +19,8 @@ import (
 // NSCase: submissions whose sandbox cannot be provided (a sandbox name nobody registered) mixed
 // with ordinary ones, some of them waiting for the unprovidable one. Whether such a submission
 // is refused by Runner.Run or accepted and ended failed is not fixed by the statement; what is:
-// a refused submission is no task (nothing waits for it, the manager's Wait returns), an
-// accepted one "eventually finishes", a task waiting for a failed task never executes its body,
+// a submission that left no task is no task (nothing may wait for it, the manager's Wait
+// returns), one that left a task "eventually finishes", a task waiting for a failed task never executes its body,
 // and "a task may only wait for tasks that already exist".
 type NSCase struct {
 	// Subs are submitted in order through Runner.Run on the root scope.
@@ -209,73 +209,71 @@ func execNS(c NSCase) hx.Verdict {
 	anyFailed := false
 	mustFail := make([]bool, len(c.Subs))
 	for i, s := range c.Subs {
-		a := res[i].accepted
-		waitsRefused, waitsFailed := false, false
+		// what counts is whether a task of that name exists afterwards; Runner.Run may report an
+		// unprovidable sandbox as an error AND leave a finished, failed task behind
+		exists := inManager[s.Name]
+		runOK := res[i].accepted
+		waitsMissing, waitsFailed := false, false
 		for _, w := range s.Wait {
 			j := idx[w]
-			if !res[j].accepted {
-				waitsRefused = true
+			if !inManager[w] {
+				waitsMissing = true
 			} else if mustFail[j] || out.failed[w] {
 				waitsFailed = true
 			}
 		}
-		switch {
-		case !a:
-			// refused: no task may exist under that name and its body never runs
+		if !exists {
+			if runOK {
+				return hx.Fail("accepted-is-a-task", "submission %s was accepted by Runner.Run but the task manager does not list it", s.Name)
+			}
 			if ran[s.Name] {
-				return hx.Fail("refused-runs-nothing", "submission %s was refused by Runner.Run but its body ran", s.Name)
+				return hx.Fail("refused-runs-nothing", "submission %s was refused by Runner.Run and is no task, but its body ran", s.Name)
 			}
-			if inManager[s.Name] {
-				return hx.Fail("refused-leaves-no-task", "submission %s (sandbox %q) was refused by Runner.Run but the task manager lists a task of that name", s.Name, sbOf(s))
-			}
-			if !s.NoSB && !waitsRefused {
+			if !s.NoSB && !waitsMissing {
 				return hx.Fail("valid-accepted", "submission %s (self sandbox, every task of its wait list %v exists) was refused", s.Name, s.Wait)
 			}
-		default:
-			if waitsRefused {
-				return hx.Fail("waits-only-for-existing", "submission %s was accepted although its wait list %v names a submission that Runner.Run refused (no such task)", s.Name, s.Wait)
+			continue
+		}
+		if waitsMissing {
+			return hx.Fail("waits-only-for-existing", "task %s exists although its wait list %v names a submission that is no task", s.Name, s.Wait)
+		}
+		if s.NoSB {
+			// without a sandbox it cannot have executed and must have ended failed
+			mustFail[i] = true
+			if ran[s.Name] {
+				return hx.Fail("no-sandbox-no-body", "submission %s (unregistered sandbox %q) executed its body", s.Name, s.SBName)
 			}
-			if !inManager[s.Name] {
-				return hx.Fail("accepted-is-a-task", "submission %s was accepted but the task manager does not list it", s.Name)
+		}
+		if waitsFailed {
+			mustFail[i] = true
+			if ran[s.Name] {
+				return hx.Fail("no-body-after-failed-prerequisite", "task %s executed its body although a task of its wait list %v ended failed", s.Name, s.Wait)
 			}
-			if s.NoSB {
-				// accepted without a sandbox: it cannot have executed and must have ended failed
-				mustFail[i] = true
-				if ran[s.Name] {
-					return hx.Fail("no-sandbox-no-body", "submission %s (unregistered sandbox %q) executed its body", s.Name, s.SBName)
-				}
-			}
-			if waitsFailed {
-				mustFail[i] = true
-				if ran[s.Name] {
-					return hx.Fail("no-body-after-failed-prerequisite", "task %s executed its body although a task of its wait list %v ended failed", s.Name, s.Wait)
-				}
-			}
-			if mustFail[i] && !out.failed[s.Name] {
-				return hx.Fail("ends-failed", "task %s (unprovidable sandbox or failed prerequisite) did not end failed", s.Name)
-			}
-			if !mustFail[i] {
-				if !ran[s.Name] {
-					return hx.Fail("body-executed", "task %s (self sandbox, no failed prerequisite) never executed its body", s.Name)
-				}
-				if out.failed[s.Name] {
-					return hx.Fail("ends-ok", "task %s (self sandbox, no failed prerequisite, succeeding body) ended failed", s.Name)
-				}
+		}
+		if mustFail[i] && !out.failed[s.Name] {
+			return hx.Fail("ends-failed", "task %s (unprovidable sandbox or failed prerequisite) did not end failed", s.Name)
+		}
+		if !mustFail[i] && runOK {
+			if !ran[s.Name] {
+				return hx.Fail("body-executed", "task %s (self sandbox, no failed prerequisite) never executed its body", s.Name)
 			}
 			if out.failed[s.Name] {
-				anyFailed = true
+				return hx.Fail("ends-ok", "task %s (self sandbox, no failed prerequisite, succeeding body) ended failed", s.Name)
 			}
+		}
+		if out.failed[s.Name] {
+			anyFailed = true
 		}
 	}
 	if (out.waitErr != nil) != anyFailed {
 		return hx.Fail("wait-reports-error-iff-failed", "TasksManager.Wait returned error=%v, some task failed=%v", out.waitErr != nil, anyFailed)
 	}
 	nRef, nAccNoSB, waiter := 0, 0, false
-	for i, s := range c.Subs {
-		if s.NoSB && !res[i].accepted {
+	for _, s := range c.Subs {
+		if s.NoSB && !inManager[s.Name] {
 			nRef++
 		}
-		if s.NoSB && res[i].accepted {
+		if s.NoSB && inManager[s.Name] {
 			nAccNoSB++
 		}
 		for _, w := range s.Wait {
